@@ -16,7 +16,7 @@ import (
 func init() { register("C12", runC12) }
 
 func runC12(c *Ctx) {
-	c.Clause("C12.1 for every connection constructor (server, plain client, spec client default branch, spec client spec branch) each advertised own transport parameter (stream/connection windows, stream counts, active_connection_id_limit, max_datagram_frame_size, max_idle_timeout) has the same origin (Config field or constant) as the operand that enforces it")
+	c.Clause("C12.1 for every connection constructor (server, plain client, spec client default branch, spec client spec branch) each advertised own transport parameter (stream/connection windows, stream counts, active_connection_id_limit, max_datagram_frame_size, max_idle_timeout, max_ack_delay) has the same origin (Config field or constant) as the operand that enforces it")
 	c.Clause("C12.2 the spec hook for the connection-ID limit is wired to the limit the manager enforces")
 	c.NotCovered("that a peer at the boundary is actually served; auto-tuned windows")
 	c.NotCovered("own-record completeness for parameters that have no receive-side enforcement (max_udp_payload_size, ack_delay_exponent, max_ack_delay)")
@@ -121,6 +121,7 @@ func c12Origins(c *Ctx) {
 		{name: "active_connection_id_limit", fields: []string{"ActiveConnectionIDLimit"}},
 		{name: "max_datagram_frame_size", fields: []string{"MaxDatagramFrameSize"}},
 		{name: "max_idle_timeout", fields: []string{"MaxIdleTimeout"}},
+		{name: "max_ack_delay", fields: []string{"MaxAckDelay"}},
 	}
 	rows[0].enforced, rows[0].where = argOrigin(pre, ncfc, 0)
 	for i := 1; i <= 3; i++ {
@@ -180,6 +181,14 @@ func c12Origins(c *Ctx) {
 	for _, in := range findInstrs(atp, StoresTo(idle)) {
 		if o := c.origin(in.(*ssa.Store).Val, 0); o != "?" && rows[8].enforced == "?" {
 			rows[8].enforced, rows[8].where = o, c.P.InstrPos(in)
+		}
+	}
+	// max_ack_delay: the delay the application-data ACK tracker is constructed with
+	rows[9].enforced, rows[9].where = "?", "-"
+	if nt, err := c.P.Func1(ah, "", "newAppDataReceivedPacketTracker"); err == nil {
+		mad := c.fld(ah, "appDataReceivedPacketTracker", "maxAckDelay")
+		for _, in := range findInstrs(nt, StoresTo(mad)) {
+			rows[9].enforced, rows[9].where = c.origin(in.(*ssa.Store).Val, 0), c.P.InstrPos(in)
 		}
 	}
 	for _, r := range rows {
@@ -277,6 +286,13 @@ func c12Origins(c *Ctx) {
 					})
 				}
 				ok2 := adv == want
+				if fname == "MaxAckDelay" && strings.HasPrefix(adv, "const ") && strings.HasPrefix(want, "const ") {
+					// a promise, not a limit: what is advertised may exceed what is enforced (timer granularity), never the reverse
+					var a, w int64
+					fmt.Sscan(strings.TrimPrefix(adv, "const "), &a)
+					fmt.Sscan(strings.TrimPrefix(want, "const "), &w)
+					ok2 = a >= w
+				}
 				if fname == "ActiveConnectionIDLimit" && adv == "const "+maxActive.(*types.Const).Val().ExactString() && want == adv {
 					ok2 = true
 				}
